@@ -95,15 +95,21 @@ func (my *cacheImpl) Get2(key any) (any, error) {
 	// 以下代码需要考虑并发, 需要阻止重复加载
 	futures.Lock()
 	var future = futures.d[key]
+	// status必须在持锁期间计算(与Load()一致): 否则在读map与计算status之间, 其它goroutine的Load()/Set()可能已经换掉了这个future,
+	// 导致明明有加载正在进行, 这里却因为拿着的旧future已经rotted而返回nil, nil
+	var status = my.getFutureStatus(future)
+	var target = future
+	if status == kFutureGood {
+		target = my.fetchIfFutureStatusGood(future)
+	}
 	futures.Unlock()
 
-	var status = my.getFutureStatus(future)
 	//fmt.Printf("status=%v \n", status)
 	switch status {
 	case kFutureGood: // status == good: 意味着future本身还没有加载完呢, 但这个future有可能有可勉强使用的predecessor
-		return my.fetchIfFutureStatusGood(future).Get2()
+		return target.Get2()
 	case kFutureExpired: // status == expired: 说明last还凑合着能用
-		return future.Get2()
+		return target.Get2()
 	}
 
 	// status == empty || status == rotted
@@ -138,6 +144,12 @@ func (my *cacheImpl) Load(key any, loader Loader) *Future {
 		next = newFuture(predecessor)
 		futures.d[key] = next
 	}
+
+	// 与上面的status一样, good状态下到底返回last还是它的predecessor, 也在持锁期间决定
+	var goodTarget *Future = nil
+	if lastStatus == kFutureGood {
+		goodTarget = my.fetchIfFutureStatusGood(lastFuture)
+	}
 	futures.Unlock()
 
 	// 必须在Unlock()之后发送: jobChan满的时候sendJob()会阻塞, 持锁阻塞会与removeRotted()形成死锁
@@ -148,7 +160,7 @@ func (my *cacheImpl) Load(key any, loader Loader) *Future {
 	//fmt.Printf("lastStatus=%v \n", lastStatus)
 	switch lastStatus {
 	case kFutureGood: // lastStatus == good: 意味着last本身还没有加载完呢, 所以不会创建next, 因此不可能返回next. 但是, 这个last有可能有可勉强使用的predecessor
-		return my.fetchIfFutureStatusGood(lastFuture)
+		return goodTarget
 	case kFutureExpired: // lastStatus == expired: 说明last还凑合着能用
 		return lastFuture
 	case kFutureRotted: // lastStatus == rotted: 说明last不能用了, 只能返回next
